@@ -7,5 +7,6 @@ mkdir -p bin evidence replays
 for p in ./cmd/*; do
   go build -tags verif -o "bin/$(basename "$p")" "$p" || exit 2
 done
+go build -race -tags verif -o bin/racecheck ./cmd/racecheck || exit 2
 [ -x ./setup_e2.sh ] && { ./setup_e2.sh || exit 2; }
 echo setup ok
